@@ -156,12 +156,12 @@ theorem envStoreAt_loud (w e : Nat) (name : String) (val : Obj) (st : St) (fr : 
   have hS : ∀ {α} (x : M α) (s : St), stateAfter x s = (run x s).2 := fun _ _ => rfl
   have e1 : outcome (envStoreAt w e name val) st = outcome (functionChanged w (some o) >>= fun _ =>
       (modifyFrame e fun f =>
-        { f with store := setStore f.store name val, numSet := if f.depth == 0 then f.numSet + 1 else f.numSet }) >>= fun _ =>
+        { f with store := setStore f.store name val, numSet := if f.depth == 0 then f.numSet + 1 else f.numSet, localFunc := noteLocal f val }) >>= fun _ =>
       (pure val : M Obj)) st := by
     rw [hO, hO]; unfold envStoreAt; rw [run_bind, run_getFrame, hfr]; dsimp only; rw [hl]
   have e2 : stateAfter (envStoreAt w e name val) st = stateAfter (functionChanged w (some o) >>= fun _ =>
       (modifyFrame e fun f =>
-        { f with store := setStore f.store name val, numSet := if f.depth == 0 then f.numSet + 1 else f.numSet }) >>= fun _ =>
+        { f with store := setStore f.store name val, numSet := if f.depth == 0 then f.numSet + 1 else f.numSet, localFunc := noteLocal f val }) >>= fun _ =>
       (pure val : M Obj)) st := by
     rw [hS, hS]; unfold envStoreAt; rw [run_bind, run_getFrame, hfr]; dsimp only; rw [hl]
   rw [e1, outcome_bind] at hok
@@ -172,7 +172,7 @@ theorem envStoreAt_loud (w e : Nat) (name : String) (val : Obj) (st : St) (fr : 
     dsimp only
     have h1 := functionChanged_loud w o st ho hf
     have h2 : Tr ((modifyFrame e fun f =>
-        { f with store := setStore f.store name val, numSet := if f.depth == 0 then f.numSet + 1 else f.numSet }) >>= fun _ =>
+        { f with store := setStore f.store name val, numSet := if f.depth == 0 then f.numSet + 1 else f.numSet, localFunc := noteLocal f val }) >>= fun _ =>
         (pure val : M Obj)) := by tr
     have h3 := (h2.h (stateAfter (functionChanged w (some o)) st)).miss w
     omega
@@ -308,10 +308,33 @@ theorem applyFunction_quiet_full (fuel : Nat) (f : FuncVal) (args : List Obj) (s
   rw [hS] at hq
   rw [hO] at hok
   unfold applyFunction at hok hq
-  rw [run_bind, hr] at hok hq
+  have hce0 : run curEnv st = (.ok st.cur, st) := rfl
+  rw [run_bind, hce0] at hok hq
   dsimp only at hok hq
-  cases r with
+  rw [run_bind, run_getFrame] at hok hq
+  cases hcf0 : st.frames[st.cur]? with
+  | none => rw [hcf0] at hok; cases hok
+  | some cf0 =>
+  rw [hcf0] at hok hq
+  dsimp only at hok hq
+  -- when the cache is skipped the call counts as a miss (`after` is not 0): excluded at the end by `finishCall_quiet`
+  generalize (cf0.localFunc && sameFunction cf0 f) = b at hok hq
+  have hr2 : ∃ r2, run (if b = true then (pure none : M (Option (Obj × Grol.Wire.Bytes))) else cacheGet f.key args) st = (.ok r2, st) ∧
+      (b = true → r2 = none) ∧ (b = false → r2 = r) := by
+    cases b with
+    | true => exact ⟨none, rfl, fun _ => rfl, fun h => (by cases h)⟩
+    | false => exact ⟨r, hr, fun h => (by cases h), fun _ => rfl⟩
+  obtain ⟨r2, hr2, hbt, hbf⟩ := hr2
+  rw [run_bind, hr2] at hok hq
+  dsimp only at hok hq
+  cases r2 with
   | some p =>
+    have hb' : b = false := by
+      cases b with
+      | true => cases hbt rfl
+      | false => rfl
+    have hrr := hbf hb'
+    subst hrr
     obtain ⟨v', out⟩ := p
     left
     refine ⟨out, ?_⟩
@@ -387,8 +410,9 @@ theorem applyFunction_quiet_full (fuel : Nat) (f : FuncVal) (args : List Obj) (s
       generalize (match sB.outs with
             | o :: rest => (chunksBytes o, rest)
             | [] => ([], [])).1 = output at hok hq
+      generalize haf : (if b = true then fr.getMiss + 1 else fr.getMiss) = af at hok hq
       have hfr4 : s4.frames = sB.frames := by rw [← hs4]
-      have htF := (tr_finishCall (f := f) (a := args) (c := sE.cur) (b := 0) (af := fr.getMiss)
+      have htF := (tr_finishCall (f := f) (a := args) (c := sE.cur) (b := 0) (af := af)
         (cc := fr.cantCache) (r := res) (o := output)).h s4
       rw [hS] at htF
       -- the caller's counter: st ≤ sE = body state ≤ sB = s4 ≤ final = st
@@ -398,18 +422,18 @@ theorem applyFunction_quiet_full (fuel : Nat) (f : FuncVal) (args : List Obj) (s
       have c3 := htB.miss sE.cur
       have c4 : missOf s4 sE.cur = missOf sB sE.cur := missOf_congr hfr4 _
       have c5 := htF.miss sE.cur
-      have hqF : Quiet sE.cur (finishCall f args sE.cur 0 fr.getMiss fr.cantCache res output) s4 := by
+      have hqF : Quiet sE.cur (finishCall f args sE.cur 0 af fr.cantCache res output) s4 := by
         unfold Quiet
         rw [hS]
         omega
-      have hab := finishCall_quiet f args sE.cur 0 fr.getMiss fr.cantCache res output s4 v
+      have hab := finishCall_quiet f args sE.cur 0 af fr.cantCache res output s4 v
         (by rw [hO]; exact hok) hqF
       have hres : v = res := by
         -- `finishCall` returns `res`
-        have : ∀ s, (∃ s', run (finishCall f args sE.cur 0 fr.getMiss fr.cantCache res output) s = (.ok res, s')) ∨
-            (∃ e s', run (finishCall f args sE.cur 0 fr.getMiss fr.cantCache res output) s = (.error e, s')) := by
+        have : ∀ s, (∃ s', run (finishCall f args sE.cur 0 af fr.cantCache res output) s = (.ok res, s')) ∨
+            (∃ e s', run (finishCall f args sE.cur 0 af fr.cantCache res output) s = (.error e, s')) := by
           intro s
-          cases hrf : run (finishCall f args sE.cur 0 fr.getMiss fr.cantCache res output) s with
+          cases hrf : run (finishCall f args sE.cur 0 af fr.cantCache res output) s with
           | mk a s' =>
             cases a with
             | error e => exact Or.inr ⟨e, s', rfl⟩
@@ -420,7 +444,11 @@ theorem applyFunction_quiet_full (fuel : Nat) (f : FuncVal) (args : List Obj) (s
         rcases this s4 with ⟨s', h⟩ | ⟨e, s', h⟩
         · rw [h] at hok; cases hok; rfl
         · rw [h] at hok; cases hok
-      have hz : missOf sB nenv = 0 := by unfold missOf; rw [hf1]; exact hab
+      have hfz : fr.getMiss = 0 := by
+        cases b with
+        | true => simp only [if_true] at haf; omega
+        | false => simpa using haf.trans hab
+      have hz : missOf sB nenv = 0 := by unfold missOf; rw [hf1]; exact hfz
       refine ⟨by rw [hres], ?_, hz⟩
       have := htB.miss nenv
       omega
